@@ -462,6 +462,10 @@ fn gen_sequence(r: &mut Rng, env: &Env, hostile: bool) -> Vec<Op> {
         uris.push("git:/proj/src/a.gleam?ref=HEAD".into());
         uris.push(p("gleam.toml"));
         uris.push(p("src/never_opened.gleam"));
+        // percent-encoded paths: a space, a non-ASCII name, and bytes that are not UTF-8 at all
+        uris.push(format!("{}/src/a%20b.gleam", file_uri(&env.proj.display().to_string())));
+        uris.push(format!("{}/src/%E2%82%AC.gleam", file_uri(&env.proj.display().to_string())));
+        uris.push(format!("{}/src/%FF%FE.gleam", file_uri(&env.proj.display().to_string())));
     }
     let ndocs = r.range(1, 3);
     r.shuffle(&mut uris);
